@@ -481,3 +481,35 @@ func (s Schema) DrawBlock(t *rapid.T, authClosure []m.Pred, cfg ProgCfg) m.Block
 	b.Checks = s.DrawChecks(t, B.Facts.List(), 0, cfg.MaxChecks, CheckCfg{PSat: cfg.PCheckSat, MaxQueries: 3})
 	return b
 }
+
+// DrawAuthz draws authorizer content aimed at an existing token: checks and
+// policies are goal-directed against the authority-level closure.
+func (s Schema) DrawAuthz(t *rapid.T, tok m.Token, cfg ProgCfg) m.Authz {
+	az := m.Authz{Facts: s.DrawFacts(t, 0, cfg.MaxFacts)}
+	rules := s.DrawRules(t, 0, (cfg.MaxRules+1)/2, cfg.RuleCfg)
+	auth := tok.Blocks[0]
+	facts := append(append([]m.Pred{}, az.Facts...), auth.Facts...)
+	for {
+		all := append(append([]m.Rule{}, rules...), auth.Rules...)
+		r := ref.LFP(facts, all)
+		if (r.Facts.Len() <= cfg.MaxClosure && !r.Diverged && !r.Ambiguous && !r.RuleError) || len(rules) == 0 {
+			break
+		}
+		rules = rules[:len(rules)-1]
+	}
+	az.Rules = rules
+	closure := ref.LFP(facts, append(append([]m.Rule{}, rules...), auth.Rules...)).Facts.List()
+	az.Checks = s.DrawChecks(t, closure, 0, cfg.MaxChecks, CheckCfg{PSat: cfg.PCheckSat, MaxQueries: 3})
+	np := rapid.IntRange(0, cfg.MaxPolicies).Draw(t, "npol")
+	for i := 0; i < np; i++ {
+		az.Policies = append(az.Policies, s.DrawPolicy(t, closure, cfg.PPolicyMatch))
+	}
+	return az
+}
+
+// AuthClosure returns the authority-level closure of a scenario (nil on error).
+func AuthClosure(tok m.Token, az m.Authz) []m.Pred {
+	facts := append(append([]m.Pred{}, az.Facts...), tok.Blocks[0].Facts...)
+	rules := append(append([]m.Rule{}, az.Rules...), tok.Blocks[0].Rules...)
+	return ref.LFP(facts, rules).Facts.List()
+}
